@@ -49,7 +49,9 @@ class ClassRef:
 
 
 class _Raise(Exception):
-    pass
+    def __init__(self, name: str = ""):
+        super().__init__(name)
+        self.name = name
 
 
 class _Done(Exception):
@@ -1515,7 +1517,8 @@ class Interp:
             self.block(st.body, env)  # np.errstate only silences warnings
             return
         if isinstance(st, ast.Raise):
-            raise _Raise()
+            exc = st.exc.func if isinstance(st.exc, ast.Call) else st.exc
+            raise _Raise(exc.id if isinstance(exc, ast.Name) else exc.attr if isinstance(exc, ast.Attribute) else "")
         if isinstance(st, ast.Return):
             try:
                 v = self.ev(st.value, env) if st.value is not None else Opaque("returns None")
@@ -2488,6 +2491,14 @@ def levi_civita(n: int, covariant: bool) -> TensorSym:
     return TensorSym(t, n if covariant else 0, 0 if covariant else n, {"Tensor", "LeviCivitaTensor"}, eps=True)
 
 
+class RaisedIn(Unknown):
+    """the interpreted function raised the named exception (an Unknown for callers that only want a value)"""
+
+    def __init__(self, name: str):
+        super().__init__(f"the path raises {name}")
+        self.name = name
+
+
 class SymDiagram(SymObject):
     """TensorDiagram(*edges).calculate() on symbolic tensors, as C05 states it (and E14 verifies for the library's bookkeeping): an edge (a, b) sums the
     first unused covariant index of a with the first unused contravariant index of b; the result carries the uncontracted covariant indices in node
@@ -2570,10 +2581,16 @@ class SymDiagram(SymObject):
         return TensorSym(table, len(out_cov), len(out_con))
 
 
-def rule_join_meet(run: Run, prog: Program) -> int:
-    run.rule("E19.join", "join and meet of points / lines / planes given as 1-tensors with symbolic coordinates, interpreted through _join_meet_duality and the tensor "
+def rule_join_meet(run: Run, prog: Program, part: str = "span") -> int:
+    if part == "degenerate":
+        run.rule("E19.join", "degenerate arguments of join / meet, interpreted through _join_meet_duality on symbolic tensors: a contraction that vanishes identically (equal "
+                             "points, collinear triples, a point on the line, planes of one pencil) raises LinearDependenceError, two skew lines of 3-space raise NotCoplanar")
+    else:
+        run.rule("E19.join", "join and meet of points / lines / planes given as 1-tensors with symbolic coordinates, interpreted through _join_meet_duality and the tensor "
                          "diagram it builds: the result is incident with every argument, does not vanish identically, changes only by a sign with the order of the "
                          "arguments, and the round trips meet(join(p,q), join(p,r)) ~ p and join(meet(l,m), meet(l,n)) ~ l hold - polynomial identities")
+    scratch = Run(prop=run.prop, quiet=True, write_evidence=False)
+    span_run, deg_run = (run, scratch) if part == "span" else (scratch, run)
     fn = prog.find_func("_join_meet_duality")
     if fn is None:
         run.add("E19.join", "_join_meet_duality", "1-tensors", UNDECIDED, "_join_meet_duality not found", "")
@@ -2627,8 +2644,8 @@ def rule_join_meet(run: Run, prog: Program) -> int:
             if isinstance(got, TensorSym):
                 return got
             raise Unknown(f"the result is not a tensor ({getattr(got, 'why', type(got).__name__)[:60]})") from None
-        except _Raise:
-            raise Unknown("the path raises") from None
+        except _Raise as r:
+            raise RaisedIn(r.name) from None
         raise Unknown("nothing is returned")
 
     def dot(a: TensorSym, b: TensorSym) -> LP:
@@ -2660,12 +2677,12 @@ def rule_join_meet(run: Run, prog: Program) -> int:
                 if not prop_to(swapped, res):
                     problems.append("exchanging two arguments changes the result by more than a scalar")
         except (Unknown, NotPolynomial, RecursionError) as ex:
-            run.add("E19.join", fn.short, label, UNDECIDED, f"not read: {str(ex)[:110]}", fn.loc)
+            span_run.add("E19.join", fn.short, label, UNDECIDED, f"not read: {str(ex)[:110]}", fn.loc)
             continue
         if problems:
-            run.add("E19.join", fn.short, label, VIOLATION, "; ".join(dict.fromkeys(problems)), fn.loc)
+            span_run.add("E19.join", fn.short, label, VIOLATION, "; ".join(dict.fromkeys(problems)), fn.loc)
         else:
-            run.add("E19.join", fn.short, label, PROVEN, "incident with every argument, not identically zero, independent of the order of the arguments up to a scalar", fn.loc)
+            span_run.add("E19.join", fn.short, label, PROVEN, "incident with every argument, not identically zero, independent of the order of the arguments up to a scalar", fn.loc)
     # a line of 3-space (the join of two points, a contravariant 2-tensor) cut with a plane
     n_ob += 1
     label = "meet of the line join(p, q) with a plane of 3-space"
@@ -2694,11 +2711,11 @@ def rule_join_meet(run: Run, prog: Program) -> int:
                     problems.append("the point is not on the line through p and q")
                     break
         if problems:
-            run.add("E19.join", fn.short, label, VIOLATION, "; ".join(dict.fromkeys(problems)), fn.loc)
+            span_run.add("E19.join", fn.short, label, VIOLATION, "; ".join(dict.fromkeys(problems)), fn.loc)
         else:
-            run.add("E19.join", fn.short, label, PROVEN, "in both argument orders the point lies in the plane and on the line through p and q, and is not identically zero", fn.loc)
+            span_run.add("E19.join", fn.short, label, PROVEN, "in both argument orders the point lies in the plane and on the line through p and q, and is not identically zero", fn.loc)
     except (Unknown, NotPolynomial, RecursionError) as ex:
-        run.add("E19.join", fn.short, label, UNDECIDED, f"not read: {str(ex)[:110]}", fn.loc)
+        span_run.add("E19.join", fn.short, label, UNDECIDED, f"not read: {str(ex)[:110]}", fn.loc)
     line_kinds = {"SubspaceTensor", "Subspace", "Tensor", "ProjectiveTensor", "LineTensor", "Line"}
 
     def on_plane(plane: TensorSym, pts: list) -> bool:
@@ -2713,10 +2730,10 @@ def rule_join_meet(run: Run, prog: Program) -> int:
         line = call([p_, q_])
         line.kinds = set(line_kinds)
         ok = on_plane(call([line, r_]), [p_, q_, r_]) and on_plane(call([r_, line]), [p_, q_, r_])
-        run.add("E19.join", fn.short, label, PROVEN if ok else VIOLATION,
+        span_run.add("E19.join", fn.short, label, PROVEN if ok else VIOLATION,
                 "in both argument orders the result is a plane through p, q and r" if ok else "the result is not the plane through p, q and r", fn.loc)
     except (Unknown, NotPolynomial, RecursionError) as ex:
-        run.add("E19.join", fn.short, label, UNDECIDED, f"not read: {str(ex)[:110]}", fn.loc)
+        span_run.add("E19.join", fn.short, label, UNDECIDED, f"not read: {str(ex)[:110]}", fn.loc)
     # two coplanar lines join(p, q), join(p, r) of 3-space (the branch after Blinn): for every pivot the argmax can select,
     # their meet is p and their join is the plane through p, q, r
     n_ob += 1
@@ -2742,13 +2759,13 @@ def rule_join_meet(run: Run, prog: Program) -> int:
                 elif not on_plane(res, [p_, q_, r_]):
                     problems.append(f"pivot {flat}: the join is not the plane through p, q and r")
         if problems:
-            run.add("E19.join", fn.short, label, VIOLATION, f"{len(problems)} of {decided} cases: " + "; ".join(problems[:2]), fn.loc)
+            span_run.add("E19.join", fn.short, label, VIOLATION, f"{len(problems)} of {decided} cases: " + "; ".join(problems[:2]), fn.loc)
         elif decided:
-            run.add("E19.join", fn.short, label, PROVEN, f"{decided} cases (every pivot the argmax can select, meet and join): the meet is p, the join is the plane through p, q and r", fn.loc)
+            span_run.add("E19.join", fn.short, label, PROVEN, f"{decided} cases (every pivot the argmax can select, meet and join): the meet is p, the join is the plane through p, q and r", fn.loc)
         else:
-            run.add("E19.join", fn.short, label, UNDECIDED, "no pivot gave a result that could be read", fn.loc)
+            span_run.add("E19.join", fn.short, label, UNDECIDED, "no pivot gave a result that could be read", fn.loc)
     except (Unknown, NotPolynomial, RecursionError) as ex:
-        run.add("E19.join", fn.short, label, UNDECIDED, f"not read: {str(ex)[:110]}", fn.loc)
+        span_run.add("E19.join", fn.short, label, UNDECIDED, f"not read: {str(ex)[:110]}", fn.loc)
     # round trips in the plane
     for label, point in (("meet(join(p, q), join(p, r)) is p", True), ("join(meet(l, m), meet(l, n)) is l", False)):
         n_ob += 1
@@ -2760,11 +2777,50 @@ def rule_join_meet(run: Run, prog: Program) -> int:
             back = call([first, second])
             ok = prop_to(back, a)
         except (Unknown, NotPolynomial, RecursionError) as ex:
-            run.add("E19.join", fn.short, label, UNDECIDED, f"not read: {str(ex)[:110]}", fn.loc)
+            span_run.add("E19.join", fn.short, label, UNDECIDED, f"not read: {str(ex)[:110]}", fn.loc)
             continue
-        run.add("E19.join", fn.short, label, PROVEN if ok else VIOLATION,
+        span_run.add("E19.join", fn.short, label, PROVEN if ok else VIOLATION,
                 "the round trip returns a multiple of the common argument" if ok else "the round trip does not return a multiple of the common argument", fn.loc)
-    return n_ob
+    n_span = n_ob
+    # degenerate arguments raise the documented error (the value-level half of C02): a contraction that vanishes identically is a dependence
+    def expect(label_: str, args_: list, want: str, **kw) -> None:
+        nonlocal n_ob
+        n_ob += 1
+        try:
+            res_ = call(args_, **kw)
+            deg_run.add("E19.join", fn.short, label_, VIOLATION,
+                    f"no error is raised, the documented one is {want}: a tensor with {sum(1 for x in res_.array.data.values() if not x.is_zero())} non-zero polynomial entries is returned", fn.loc)
+        except RaisedIn as r_:
+            deg_run.add("E19.join", fn.short, label_, PROVEN if r_.name == want else VIOLATION,
+                    f"raises {r_.name}" + ("" if r_.name == want else f", the documented error is {want}"), fn.loc)
+        except (Unknown, NotPolynomial, RecursionError) as ex_:
+            deg_run.add("E19.join", fn.short, label_, UNDECIDED, f"not read: {str(ex_)[:100]}", fn.loc)
+
+    def combo(name: str, a: TensorSym, b: TensorSym, point: bool) -> TensorSym:
+        al, be = LP.sym("alpha"), LP.sym("beta")
+        t = Table(a.array.shape, {k_: al * a.array.data[k_] + be * b.array.data[k_] for k_ in a.array.data})
+        return TensorSym(t, a.tensor_shape[0], a.tensor_shape[1], set(a.kinds))
+
+    p2, q2 = obj("p", 3, True), obj("q", 3, True)
+    expect("join of a point of the plane with itself", [p2, p2.copy()], "LinearDependenceError")
+    l2, m2 = obj("l", 3, False), obj("m", 3, False)
+    expect("meet of a line of the plane with itself", [l2, l2.copy()], "LinearDependenceError")
+    p4, q4, r4 = obj("p", 4, True), obj("q", 4, True), obj("r", 4, True)
+    expect("join of three collinear points of 3-space", [p4, q4, combo("c", p4, q4, True)], "LinearDependenceError")
+    e4, f4 = obj("e", 4, False), obj("f", 4, False)
+    expect("meet of three planes of one pencil", [e4, f4, combo("g", e4, f4, False)], "LinearDependenceError")
+    try:
+        line_pq = call([p4, q4])
+        line_pq.kinds = set(line_kinds)
+        expect("join of the line join(p, q) with a point of that line", [line_pq, combo("c", p4, q4, True)], "LinearDependenceError")
+        s4 = obj("s", 4, True)
+        line_rs = call([r4, s4])
+        line_rs.kinds = set(line_kinds)
+        expect("meet of two skew lines of 3-space", [line_pq, line_rs], "NotCoplanar")
+        expect("join of two skew lines of 3-space", [line_pq, line_rs], "NotCoplanar", flags={"intersect_lines": False})
+    except (Unknown, NotPolynomial, RecursionError):
+        pass
+    return n_span if part == "span" else n_ob - n_span
 
 
 # ---------------------------------------------------------------------------------------------- parallels and mirror images (C10)
